@@ -202,8 +202,114 @@ pub fn known_shapes(root: &SyntaxNode) -> Vec<&'static str> {
     }) {
         add("F28");
     }
-    // F18: a comment between the parts of a field access
-    if any_node(root, &|n| n.kind() == K::FieldAccess && n.children().any(|c| is_comment(c.kind()))) {
+    // F29: a parenthesised non-string literal directly followed by text that lexes into it once
+    // the parentheses are dropped (`#(1)em`, `#(none)x`, `#(1).`, `(1.).abs()`)
+    {
+        fn inner_literal(n: &SyntaxNode) -> Option<&SyntaxNode> {
+            if n.kind() != K::Parenthesized || n.children().any(|c| is_comment(c.kind())) {
+                return None;
+            }
+            let e = n.children().find(|c| !matches!(c.kind(), K::LeftParen | K::RightParen | K::Space))?;
+            match e.kind() {
+                K::Int | K::Float | K::Numeric | K::Bool | K::None | K::Auto => Some(e),
+                K::Parenthesized => inner_literal(e),
+                _ => None,
+            }
+        }
+        // (node, index of the first leaf after it)
+        fn walk(n: &SyntaxNode, pos: &mut usize, out: &mut Vec<(K, String, usize)>) {
+            if n.children().len() == 0 {
+                *pos += 1;
+                return;
+            }
+            let lit = inner_literal(n).map(|e| (e.kind(), e.text().to_string()));
+            for c in n.children() {
+                walk(c, pos, out);
+            }
+            if let Some((k, t)) = lit {
+                out.push((k, t, *pos));
+            }
+        }
+        let mut found29 = vec![];
+        walk(root, &mut 0, &mut found29);
+        for (k, t, next) in found29 {
+            if let Some(l) = ls.get(next) {
+                let c = l.text.chars().next().unwrap_or(' ');
+                let word = c.is_alphanumeric() || c == '_';
+                let hit = match k {
+                    K::Bool | K::None | K::Auto => word || c == '-',
+                    K::Numeric => word || c == '%',
+                    _ => {
+                        word || c == '%'
+                            || (c == '.'
+                                && (l.kind == K::Text
+                                    || t.ends_with('.')
+                                    || l.text.starts_with("..")
+                                    || (l.kind == K::Dot && ls.get(next + 1).is_some_and(|f| f.kind != K::Ident))))
+                    }
+                };
+                if hit {
+                    add("F29");
+                }
+            }
+        }
+    }
+    // F38: on a prose line (a markup line that contains text), embedded code that the printer
+    // never lays out on one line: a code block with several statements or with a comment, an
+    // import with an item list (break suppression is ignored there)
+    {
+        fn forces_break(n: &SyntaxNode) -> bool {
+            let here = match n.kind() {
+                K::CodeBlock => n.children().any(|c| {
+                    is_comment(c.kind())
+                        || (c.kind() == K::Code
+                            && (c.children().any(|d| is_comment(d.kind()))
+                                || c.children().filter(|d| !matches!(d.kind(), K::Space | K::Semicolon) && !is_comment(d.kind())).count() >= 2))
+                }),
+                K::ModuleImport => n.children().any(|c| c.kind() == K::ImportItems),
+                _ => false,
+            };
+            here || n.children().any(forces_break)
+        }
+        fn prose(n: &SyntaxNode) -> bool {
+            if n.kind() == K::Markup {
+                let mut has_text = false;
+                let mut forced = false;
+                for c in n.children() {
+                    let k = c.kind();
+                    if k == K::Parbreak || (k == K::Space && c.text().chars().any(typst_syntax::is_newline)) {
+                        if has_text && forced {
+                            return true;
+                        }
+                        has_text = false;
+                        forced = false;
+                    } else {
+                        has_text |= k == K::Text;
+                        forced |= forces_break(c);
+                    }
+                }
+                if has_text && forced {
+                    return true;
+                }
+            }
+            n.children().any(prose)
+        }
+        if prose(root) {
+            add("F38");
+        }
+    }
+    // F18: a line comment between the dot and the field of a field access
+    if any_node(root, &|n| {
+        n.kind() == K::FieldAccess && {
+            let mut after_dot = false;
+            let mut hit = false;
+            for c in n.children() {
+                after_dot |= c.kind() == K::Dot;
+                hit |= after_dot && c.kind() == K::LineComment;
+            }
+            hit
+        }
+    }) {
         add("F18");
     }
     found
@@ -219,10 +325,12 @@ pub fn affects(id: &str, prop: &str) -> bool {
         "F7" => &["C12"],
         "F24" => &["C09"],
         "F28" => &["C08"],
+        "F29" => &["C01", "C02", "C03", "C04", "C06", "C08", "C09", "C10", "C13"],
+        "F38" => &["C08"],
         "F26" => &["C13"],
         "F21" => &["C01", "C02", "C03", "C08", "C13"],
         "F10" => &["C03"],
-        "F18" => &["C04", "C01", "C02", "C03", "C13", "C06", "C07"],
+        "F18" => &["C04", "C01", "C02", "C03", "C13"],
         "F23" => &["C01", "C02", "C03", "C08", "C13"],
         _ => &[],
     };
